@@ -100,7 +100,8 @@ def one_case(run, label, spec, seed_key, collect=None):
         if "read" in r.stages:
             reached = True
         if not r.kinds:
-            run.count(f"roundtrip_ok:{route}")
+            run.count(f"roundtrip_ok:{route}" if "read" in r.stages
+                      else f"roundtrip_not_judged:{route}")
             continue
         run.count(f"roundtrip_failed:{route}")
         _attribute(run, label, spec, route, r, probes_for, collect)
